@@ -14,6 +14,9 @@ use crate::wire::{hex, unhex};
 #[derive(Clone, Debug, PartialEq, Eq)]
 pub enum Step {
     Clock(u64),
+    /// elapsed (monotonic) time of the node in microseconds since the run began: wall-clock
+    /// jumps do not move it (only the preloaded clock shim reads it)
+    Mono(u64),
     Frame(Vec<u8>),
     Soft,
     Hard,
@@ -23,6 +26,7 @@ impl Step {
     pub fn to_json(&self) -> Value {
         match self {
             Step::Clock(ms) => json!({"T": ms}),
+            Step::Mono(us) => json!({"M": us}),
             Step::Frame(f) => json!({"F": hex(f)}),
             Step::Soft => json!({"X": "soft"}),
             Step::Hard => json!({"X": "hard"}),
@@ -31,6 +35,9 @@ impl Step {
     pub fn from_json(v: &Value) -> Option<Step> {
         if let Some(ms) = v.get("T") {
             return Some(Step::Clock(ms.as_u64()?));
+        }
+        if let Some(us) = v.get("M") {
+            return Some(Step::Mono(us.as_u64()?));
         }
         if let Some(f) = v.get("F") {
             return Some(Step::Frame(unhex(f.as_str()?)?));
@@ -185,6 +192,7 @@ impl<'a> Executor<'a> {
                 self.clock = *ms;
                 Ok(node.set_clock(*ms).map(|_| None))
             }
+            Step::Mono(us) => Ok(node.set_mono(*us).map(|_| None)),
             Step::Frame(f) => Ok(node.frame(f).map(Some)),
             Step::Soft => {
                 self.epoch += 1;
